@@ -28,6 +28,7 @@ const (
 	evIface  // interface value of known dynamic type (payload in obj, may be nil)
 	evTuple
 	evFunc // a function value
+	evSym  // an opaque token with a label (a request's field): it can be copied, converted and stored, not examined
 )
 
 type evObj struct {
@@ -43,10 +44,34 @@ type evVal struct {
 	inner *evVal // interface payload
 	tup   []evVal
 	fn    *ssa.Function
+	sym   string
+}
+
+func evSymbol(label string) evVal { return evVal{k: evSym, sym: label} }
+
+// labelOf: the label of a token, of an interface that holds one, of a fresh slice that a token was copied into.
+func labelOf(v evVal) string {
+	switch v.k {
+	case evSym:
+		return v.sym
+	case evIface:
+		if v.inner != nil {
+			return labelOf(*v.inner)
+		}
+	case evObject:
+		if c, ok := v.obj.fields["copyof"]; ok {
+			if l := labelOf(c); l != "" {
+				return "copy:" + l
+			}
+		}
+	}
+	return ""
 }
 
 func (v evVal) String() string {
 	switch v.k {
+	case evSym:
+		return "sym " + v.sym
 	case evConst:
 		return v.c.ExactString()
 	case evNil:
@@ -85,6 +110,8 @@ type evaluator struct {
 	gscal   map[*ssa.Package]*evObj
 	inited  map[*ssa.Package]bool
 	lenient bool
+	// opaque, when set, is asked before a statically known callee is entered: it may give the call's value
+	opaque func(callee *ssa.Function, args []evVal) (evVal, bool)
 }
 
 func newEvaluator(p *Program) *evaluator {
@@ -449,7 +476,10 @@ func (e *evaluator) run(fn *ssa.Function, args []evVal, depth int) evStop {
 				if f, ok := x.Fn.(*ssa.Function); ok && len(x.Bindings) == 0 {
 					env[x] = evVal{k: evFunc, fn: f}
 				}
-			case *ssa.MakeSlice, *ssa.MakeChan, *ssa.Range, *ssa.Next, *ssa.Select, *ssa.SliceToArrayPointer:
+			case *ssa.MakeSlice:
+				// a fresh slice: what is copied into it is remembered (labelOf)
+				env[x] = evVal{k: evObject, obj: &evObj{typ: x.Type(), fields: map[string]evVal{}}}
+			case *ssa.MakeChan, *ssa.Range, *ssa.Next, *ssa.Select, *ssa.SliceToArrayPointer:
 				if v, ok := in.(ssa.Value); ok {
 					env[v] = evVal{}
 				}
@@ -638,6 +668,16 @@ func (e *evaluator) call(x *ssa.Call, cc *ssa.CallCommon, args []evVal, get func
 				return evInt(0, types.Typ[types.Int])
 			}
 		}
+		if name == "append" && len(args) == 2 && args[0].k == evNil {
+			if l := labelOf(args[1]); l != "" {
+				return evSymbol("copy:" + l) // append([]T(nil), x...): a fresh slice with x's contents
+			}
+		}
+		if name == "copy" && len(args) == 2 && args[0].k == evObject {
+			if l := labelOf(args[1]); l != "" {
+				args[0].obj.fields["copyof"] = evSymbol(l)
+			}
+		}
 		return evVal{}
 	}
 	var callee *ssa.Function
@@ -653,6 +693,11 @@ func (e *evaluator) call(x *ssa.Call, cc *ssa.CallCommon, args []evVal, get func
 		callee = f
 	} else if fv := get(cc.Value); fv.k == evFunc {
 		callee = fv.fn
+	}
+	if callee != nil && e.opaque != nil {
+		if v, ok := e.opaque(callee, args); ok {
+			return v
+		}
 	}
 	if callee == nil || callee.Blocks == nil || !inModule(callee) {
 		return evVal{}
